@@ -379,7 +379,11 @@ def render_one(M, fa):
         if base == 'char': return encode_char(M, v)
         if base in ('eval::error::Error', 'Error'):
             return display_local(M, v, '<Error as std::fmt::Display>::fmt')
-        if base in ('FromUtf8Error',): return elems('<FromUtf8Error>')
+        if base in ('FromUtf8Error',):
+            # Display of core::str::Utf8Error
+            if v.d.get('sym'): raise Unsupported('Display of a Utf8Error over symbolic bytes')
+            if v.d.get('error_len') is None: return elems('incomplete utf-8 byte sequence from index %d' % v.d['valid_up_to'])
+            return elems('invalid utf-8 sequence of %d bytes from index %d' % (v.d['error_len'], v.d['valid_up_to']))
     else:
         if base == 'Option<String>':
             return elems('None') if v.variant == 0 else elems('Some("') + toelems(v.fields[0]) + elems('")')
@@ -430,12 +434,36 @@ def _(M, a, c): return Native('String', b=[])
 def _(M, a, c): return len(V(a[0]).d['b']) == 0
 @model('String::into_bytes')
 def _(M, a, c): return Native('Vec', b=a[0].d['b'])
+def utf8_valid_formula(bs):
+    """z3 formula: the (concrete-length) list of u8 terms is well-formed UTF-8"""
+    n = len(bs); okk = [None] * (n + 1); okk[n] = z3.BoolVal(True)
+    def rng(b, lo, hi): return z3.And(z3.UGE(b, lo), z3.ULE(b, hi))
+    z = [b.z() for b in bs]
+    for i in range(n - 1, -1, -1):
+        alts = [z3.And(z3.ULT(z[i], 0x80), okk[i + 1])]
+        if i + 1 < n: alts.append(z3.And(rng(z[i], 0xC2, 0xDF), rng(z[i+1], 0x80, 0xBF), okk[i + 2]))
+        if i + 2 < n:
+            c2 = rng(z[i+2], 0x80, 0xBF)
+            alts.append(z3.And(z[i] == 0xE0, rng(z[i+1], 0xA0, 0xBF), c2, okk[i + 3]))
+            alts.append(z3.And(z3.Or(rng(z[i], 0xE1, 0xEC), rng(z[i], 0xEE, 0xEF)), rng(z[i+1], 0x80, 0xBF), c2, okk[i + 3]))
+            alts.append(z3.And(z[i] == 0xED, rng(z[i+1], 0x80, 0x9F), c2, okk[i + 3]))
+        if i + 3 < n:
+            c23 = z3.And(rng(z[i+2], 0x80, 0xBF), rng(z[i+3], 0x80, 0xBF))
+            alts.append(z3.And(z[i] == 0xF0, rng(z[i+1], 0x90, 0xBF), c23, okk[i + 4]))
+            alts.append(z3.And(rng(z[i], 0xF1, 0xF3), rng(z[i+1], 0x80, 0xBF), c23, okk[i + 4]))
+            alts.append(z3.And(z[i] == 0xF4, rng(z[i+1], 0x80, 0x8F), c23, okk[i + 4]))
+        okk[i] = z3.Or(*alts)
+    return okk[0]
 @model('String::from_utf8')
 def _(M, a, c):
     bs = a[0].d['b']
-    if any(b.sym() for b in bs): raise Unsupported("from_utf8 on symbolic bytes (prototype)")
+    if any(isinstance(b, Dec) for b in bs): raise Unsupported("from_utf8 on a rendered symbolic integer")
+    if any(b.sym() for b in bs):
+        if M.branch(utf8_valid_formula(bs)): return ok(Native('String', b=bs))
+        return err(Native('FromUtf8Error', valid_up_to=None, error_len=None, sym=True))
     try: bytes(b.v for b in bs).decode('utf-8')
-    except UnicodeDecodeError: return err(Native('FromUtf8Error'))
+    except UnicodeDecodeError as e:
+        return err(Native('FromUtf8Error', valid_up_to=e.start, error_len=(None if 'unexpected end' in e.reason else e.end - e.start)))
     return ok(Native('String', b=bs))
 @model_re(r'^std::slice::<impl \[String\]>::join$')
 def _(M, a, c):
